@@ -22,6 +22,7 @@ general N live in the hand model lean/EPV/Model/HeatSeries.lean.  What is traced
 """
 import collections
 import importlib
+import math
 
 import numpy as np
 
@@ -32,6 +33,11 @@ from ..sym import S, E, lift
 
 ROD = 'exactpack.solvers.heat.rod1d'
 _rod = importlib.import_module(ROD)
+
+# `np.pi` is handed to the traced code as a literal NODE (not a Python float), so that products and powers such as
+# `(n * np.pi)**2` or `2./np.pi` stay visible in the real model as expressions in pi instead of being folded by
+# Python into anonymous dyadic constants.  The Float twin evaluates the same operations on the same double.
+PI_SHIM = {'np': {'pi': E('flt', math.pi)}}
 
 
 class SymStore(object):
@@ -105,7 +111,7 @@ for _i in (1, 2, 3, 4):
         @target('RodModes%d' % i, ['heat'], deriv=None)
         def _b():
             return trace_func('RodModes%d' % i, _modes_symbolic('modes_BC%d' % i), [], None, modules=[ROD],
-                              source='exactpack.solvers.heat.rod1d:Rod1D.modes_BC%d (symbolic mode index n)' % i)
+                              extra_shims=PI_SHIM, source='exactpack.solvers.heat.rod1d:Rod1D.modes_BC%d (symbolic mode index n)' % i)
     _mk(_i)
 
 
@@ -118,7 +124,7 @@ def _fsolve_atom(func, x0, *a, **k):
 @target('RodModesGen', ['heat'], deriv=None)
 def _rodmodesgen():
     return trace_func('RodModesGen', _modes_symbolic('modes_BCgen', fsolve=True), [], None, modules=[ROD],
-                      source='exactpack.solvers.heat.rod1d:Rod1D.modes_BCgen (symbolic mode index n, fsolve root = atom mu)')
+                      extra_shims=PI_SHIM, source='exactpack.solvers.heat.rod1d:Rod1D.modes_BCgen (symbolic mode index n, fsolve root = atom mu)')
 
 
 @target('RodRun2', ['heat'], deriv=None, floats=True)
@@ -159,13 +165,14 @@ for _nm, _cp in SANDWICH.items():
 
         @target(nm + 'Init', ['heat'], deriv=None)
         def _b():
-            return trace_func(nm + 'Init', _probe(cp, 3), [], None, modules=mods, source=cp + '.__init__ (Nsum = 3)')
+            return trace_func(nm + 'Init', _probe(cp, 3), [], None, modules=mods, extra_shims=PI_SHIM,
+                              source=cp + '.__init__ (Nsum = 3)')
 
         @target(nm + '3', ['heat'], deriv=None,
                 corr=dict(cls=cp, x=(0.0, 1.0), t=(0.01, 1.0), params=dict(SANDWICH_PARAMS[nm], Nsum=3),
                           fix=lambda rng, p, pt, t: (p, [pt[0] * p['L']], t)))
         def _c():
-            return trace_solver(nm + '3', cp, pvars=('x',), mode='init', concrete={'Nsum': 3})
+            return trace_solver(nm + '3', cp, pvars=('x',), mode='init', concrete={'Nsum': 3}, extra_shims=PI_SHIM)
     _mk(_nm, _cp)
 
 
@@ -174,7 +181,7 @@ def _rod3():
     """constructor + _run of Rod1D with Nsum = 3 and all eleven parameters symbolic: the zero pattern of
     (alpha1, beta1, alpha2, beta2) selects BC1..BC4 or the general case (fsolve atoms mu_i)"""
     return trace_solver('Rod3', ROD + ':Rod1D', pvars=('x',), mode='init', concrete={'Nsum': 3},
-                        extra_shims={'fsolve': _fsolve_atom})
+                        extra_shims=dict(PI_SHIM, fsolve=_fsolve_atom))
 
 
 def _point2(a, b):
@@ -208,7 +215,7 @@ RECT = 'exactpack.solvers.heat.rectangle:Rectangle'
                   params=dict(Nsum=3, k=(0.5, 2.0), cp=(0.5, 2.0), rho=(0.5, 2.0), b=(0.5, 2.0), Tb=(-3.0, 5.0), T0=(-3.0, 5.0)),
                   fix=lambda rng, p, pt, t: (p, [rng.choice([0.0, pt[0] * p['b'], pt[0] * p['b'], p['b']])], t)))
 def _h1():
-    return trace_solver('Hutchens1N3', H1, pvars=('r',), mode='new', concrete={'Nsum': 3})
+    return trace_solver('Hutchens1N3', H1, pvars=('r',), mode='new', concrete={'Nsum': 3}, extra_shims=PI_SHIM)
 
 
 def _i0_atoms():
@@ -238,10 +245,12 @@ def _h2():
         finally:
             mod.i0 = saved
     return trace_func('Hutchens2N2', run, [], None, modules=[H2.split(':')[0]], pvars=('r', 'z'),
+                      extra_shims=PI_SHIM,
                       source=H2 + '._run (Nsum = 2, I0 values as atoms)')
 
 
 @target('RectangleN2', ['heat'], deriv=None)
 def _rect():
     return trace_func('RectangleN2', _run2d(RECT, ('x', 'y'), 't', {'Nsum': 2, 'NonHomogeneousOnly': False}), [], None,
-                      modules=[RECT.split(':')[0]], pvars=('x', 'y'), tvar='t', source=RECT + '._run (Nsum = 2)')
+                      modules=[RECT.split(':')[0]], pvars=('x', 'y'), tvar='t', extra_shims=PI_SHIM,
+                      source=RECT + '._run (Nsum = 2)')
